@@ -43,6 +43,12 @@ func GenMDPoolFixedCase(t *rapid.T, pool *[]string, maxKeys int) []KV {
 
 func genMDPool(t *rapid.T, pool *[]string, maxKeys int, recase bool) []KV {
 	nk := rapid.IntRange(0, maxKeys).Draw(t, "nkeys")
+	// now and then a wide set (dozens of values): nothing in gRPC bounds the number of entries, and a stage that
+	// keeps only the first N of them would go unnoticed with a handful of keys
+	wide := maxKeys >= 3 && rapid.IntRange(0, 15).Draw(t, "widemd") == 0
+	if wide {
+		nk = rapid.IntRange(9, 14).Draw(t, "nkeyswide")
+	}
 	var out []KV
 	for i := 0; i < nk; i++ {
 		var k string
@@ -69,6 +75,9 @@ func genMDPool(t *rapid.T, pool *[]string, maxKeys int, recase bool) []KV {
 			}
 		}
 		nv := rapid.SampledFrom([]int{1, 1, 1, 2, 3, 4}).Draw(t, "nvals")
+		if wide {
+			nv = rapid.IntRange(3, 4).Draw(t, "nvalswide")
+		}
 		for j := 0; j < nv; j++ {
 			var v []byte
 			if bin {
@@ -169,6 +178,10 @@ func GenErrSpec(t *rapid.T, okBias int) ErrSpec {
 			d := Detail{Kind: rapid.SampledFrom([]string{"str", "int", "dur", "nested"}).Draw(t, "dkind")}
 			d.S = rapid.StringMatching(`[a-zé]{0,10}`).Draw(t, "ds")
 			d.N = rapid.Int64Range(-1000000, 1000000).Draw(t, "dn")
+			if rapid.IntRange(0, 7).Draw(t, "dbig") == 0 {
+				// a detail of several KiB (nothing bounds the size of a status detail)
+				d.S, d.Rep = d.S+"d", rapid.SampledFrom([]int{700, 3000, 9000, 40000}).Draw(t, "drep")
+			}
 			e.Details = append(e.Details, d)
 		}
 	}
